@@ -75,3 +75,40 @@ def identity(ctx: Ctx) -> list[Ob]:
     if not out:
         out.append(ok("R7n", RG, "scope-as-identity", "no mapping from a scope to a node or node index in the class", c.loc, nontrivial=False))
     return out
+
+
+def canonical(ctx: Ctx) -> list[Ob]:
+    """R7n-canon -- the decomposition of a partition that ``is_structured_decomposable`` compares is
+    order-free: a set / frozenset of the child scopes, or a tuple sorted with an explicit total-order
+    key.  An unsorted tuple over ``node_inputs(partition)`` makes the flag depend on the order in which
+    a partition lists its children: two repetitions that split a region the same way, listed
+    {0,1}|{2,3} and {2,3}|{0,1}, are reported as different decompositions."""
+    c = ctx.repo.cls(RG)
+    f = c.methods.get("is_structured_decomposable")
+    if f is None:
+        raise AnalysisError("vanished anchor: RegionGraph.is_structured_decomposable")
+    out: list[Ob] = []
+    k = 0
+    for n in ast.walk(f.node):
+        if not (isinstance(n, ast.Call) and isinstance(n.func, ast.Name) and n.func.id in ("tuple", "list", "set", "frozenset", "sorted") and n.args):
+            continue
+        g = n.args[0]
+        if not (isinstance(g, (ast.GeneratorExp, ast.ListComp, ast.SetComp)) and _is_scope_attr(g.elt)):
+            if not (isinstance(g, ast.Call) and isinstance(g.func, ast.Name) and g.func.id == "sorted"):
+                continue
+        k += 1
+        site = f"{f.module.relpath}:{n.lineno}"
+        inst = f"decomposition#{k}"
+        if n.func.id in ("set", "frozenset"):
+            out.append(ok("R7n", f.qualname, inst, "child scopes compared as a set", site))
+        elif n.func.id == "sorted" or (isinstance(g, ast.Call) and isinstance(g.func, ast.Name) and g.func.id == "sorted"):
+            s_ = n if n.func.id == "sorted" else g
+            if any(kw.arg == "key" for kw in s_.keywords):  # type: ignore[union-attr]
+                out.append(ok("R7n", f.qualname, inst, "child scopes sorted with an explicit key", site))
+            else:
+                out.append(viol("R7n", f.qualname, inst, "child scopes sorted with Scope's own order, which is the subset order (not total): the result depends on the listing order", site))
+        else:
+            out.append(viol("R7n", f.qualname, inst, f"`{unparse(n)[:70]}` keeps the order in which the partition lists its children: the same split listed in another order counts as a different decomposition, so a structured-decomposable graph (e.g. RandomBinaryTree(3, num_repetitions=2, seed=5)) is flagged as not structured-decomposable", site))
+    if not out:
+        out.append(unres("R7n", f.qualname, "decomposition", "no collection of child scopes found: another formulation, no verdict", f.loc))
+    return out
